@@ -528,3 +528,317 @@ Proof.
   cbn [flat_tail render_tail spec_task r_type r_addr r_time]. f_equal.
   rewrite spec_forest. f_equal. apply IH.
 Qed.
+
+(* ------------------------------------------------------------------ leaf folding is presentation only *)
+(* what the property speaks about on a line: entered/left, task, indentation, the function
+   entered, the duration; NOT the timestamp columns (a folded leaf has one line and one stamp) *)
+Definition core := (bool * nat * N * N * N)%type.
+Definition core_of (e : event) : core :=
+  (e_open e, e_task e, e_indent e, if e_open e then e_name e else 0, e_dur e).
+
+(* the reader state without the two timestamp fields *)
+Definition strip (ts : tstate) : tstate :=
+  mkts (t_set ts) (t_sc ts) (t_dd ts) (t_fork_dd ts) (t_stack ts) 0 0.
+Definition STR (g : gstate) : list tstate := map strip (g_tasks g).
+
+Definition inh_of (tasks : list task) (T : list tstate) (i : nat) : N :=
+  match k_parent (nth i tasks (mktask None [])) with
+  | Some p => t_fork_dd (nth p T tstate0)
+  | None => 0
+  end.
+
+(* one record, on stripped states, producing core events *)
+Definition cstep (forks : list N) (i : nat) (inh : N) (ts : tstate) (r : rec) : list core * tstate :=
+  let ts0 := consume_task inh ts r in
+  match r_type r with
+  | ENTRY =>
+      let ts2 := if is_forkb forks (r_addr r) then set_fork ts0 (t_dd ts0 + 1) else ts0 in
+      ([(true, i, t_dd ts2, r_addr r, 0)], set_dd ts2 (t_dd ts2 + 1))
+  | EXIT =>
+      let f := fget (t_stack ts0) (t_sc ts0) in
+      ([(false, i, N.pred (t_dd ts0), 0, f_time f)], set_dd ts0 (N.pred (t_dd ts0)))
+  end.
+
+Fixpoint crun (forks : list N) (tasks : list task) (l : list (nat * rec)) (T : list tstate) : list core :=
+  match l with
+  | [] => []
+  | (i, r) :: tl =>
+      let '(es, ts') := cstep forks i (inh_of tasks T i) (nth i T tstate0) r in
+      es ++ crun forks tasks tl (tupd T i ts')
+  end.
+
+Lemma strip_idem ts : strip (strip ts) = strip ts.
+Proof. reflexivity. Qed.
+
+Lemma strip_consume inh ts r : strip (consume_task inh ts r) = consume_task inh (strip ts) r.
+Proof.
+  destruct ts as [st sc dd fd stk t tl]. unfold consume_task, count, account, first_setup, strip.
+  cbn [t_set t_sc t_dd t_fork_dd t_stack t_ts t_ts_last].
+  destruct st; destruct (r_type r); cbn [t_set t_sc t_dd t_fork_dd t_stack t_ts t_ts_last];
+    try reflexivity;
+    match goal with |- context [if ?b then _ else _] => destruct b end; reflexivity.
+Qed.
+
+Lemma consume_ts inh ts r : t_ts (consume_task inh ts r) = t_ts ts /\ t_ts_last (consume_task inh ts r) = t_ts_last ts.
+Proof.
+  destruct ts as [st sc dd fd stk t tl]. unfold consume_task, count, account, first_setup.
+  cbn [t_set t_sc t_dd t_fork_dd t_stack t_ts t_ts_last].
+  destruct st; destruct (r_type r); cbn [t_set t_sc t_dd t_fork_dd t_stack t_ts t_ts_last];
+    try (split; reflexivity);
+    match goal with |- context [if ?b then _ else _] => destruct b end; split; reflexivity.
+Qed.
+
+Lemma consume_set inh ts r : t_set (consume_task inh ts r) = true.
+Proof.
+  destruct ts as [st sc dd fd stk t tl]. unfold consume_task, count, account, first_setup.
+  cbn [t_set t_sc t_dd t_fork_dd t_stack t_ts t_ts_last].
+  destruct st; destruct (r_type r); cbn [t_set t_sc t_dd t_fork_dd t_stack t_ts t_ts_last];
+    try reflexivity;
+    match goal with |- context [if ?b then _ else _] => destruct b end; reflexivity.
+Qed.
+
+Lemma consume_inh_irrelevant inh inh' ts r : t_set ts = true -> consume_task inh ts r = consume_task inh' ts r.
+Proof. intros H. unfold consume_task, first_setup. rewrite H. reflexivity. Qed.
+
+Lemma tupd_tupd : forall l i x y, tupd (tupd l i x) i y = tupd l i y.
+Proof. induction l as [|h t IH]; intros [|i] x y; cbn; auto. rewrite IH. reflexivity. Qed.
+
+Lemma map_tupd f : forall l i x, map f (tupd l i x) = tupd (map f l) i (f x).
+Proof. induction l as [|h t IH]; intros [|i] x; cbn; auto. rewrite IH. reflexivity. Qed.
+
+Lemma nth_STR g i : nth i (STR g) tstate0 = strip (tget g i).
+Proof. unfold STR, tget. change tstate0 with (strip tstate0) at 1. apply map_nth. Qed.
+
+Lemma inherit_STR tasks g i : inherit tasks g i = inh_of tasks (STR g) i.
+Proof. unfold inherit, inh_of. destruct (k_parent _); [|reflexivity]. rewrite nth_STR. reflexivity. Qed.
+
+Lemma length_STR g : length (STR g) = length (g_tasks g).
+Proof. apply map_length. Qed.
+
+Lemma tget_consume tasks g i r : (i < length (g_tasks g))%nat ->
+  tget (consume tasks g i r) i = consume_task (inherit tasks g i) (tget g i) r.
+Proof. intros H. unfold consume, tget. cbn [g_tasks]. rewrite nth_tupd by assumption. rewrite Nat.eqb_refl. reflexivity. Qed.
+
+(* a record processed without folding, seen on stripped states *)
+Lemma step_core c forks tasks g i r : (i < length (g_tasks g))%nat -> c_forks c = forks ->
+  map core_of (events_of (fst (step c tasks g i r))) =
+    fst (cstep forks i (inh_of tasks (STR g) i) (nth i (STR g) tstate0) r) /\
+  STR (snd (step c tasks g i r)) =
+    tupd (STR g) i (snd (cstep forks i (inh_of tasks (STR g) i) (nth i (STR g) tstate0) r)).
+Proof.
+  intros Hi Hfk. unfold step, cstep.
+  rewrite (tget_consume _ _ _ _ Hi).
+  rewrite nth_STR, <- inherit_STR, <- strip_consume.
+  set (ts0 := consume_task (inherit tasks g i) (tget g i) r).
+  unfold is_fork, is_forkb. rewrite Hfk.
+  destruct (r_type r); cbn [fst snd].
+  - split.
+    + rewrite events_warn_app by apply warn_of_warn. unfold events_of_line, mk. cbn [l_kind l_task l_indent l_name map core_of e_open e_task e_indent e_name e_dur].
+      destruct (existsb (N.eqb (r_addr r)) forks); reflexivity.
+    + unfold STR, tset, consume. cbn [g_tasks]. rewrite tupd_tupd, map_tupd. f_equal.
+      destruct (existsb (N.eqb (r_addr r)) forks); reflexivity.
+  - split.
+    + rewrite events_warn_app by apply warn_of_warn. unfold events_of_line, mk. cbn [l_kind l_task l_indent l_name l_dur map core_of e_open e_task e_indent e_name e_dur].
+      reflexivity.
+    + unfold STR, tset, consume. cbn [g_tasks]. rewrite tupd_tupd, map_tupd. reflexivity.
+Qed.
+
+Lemma length_step c tasks g i r : length (g_tasks (snd (step c tasks g i r))) = length (g_tasks g).
+Proof.
+  unfold step. destruct (r_type r); cbn [snd]; unfold tset, consume; cbn [g_tasks]; rewrite !length_tupd; reflexivity.
+Qed.
+
+(* unfolding [run] on its three branches *)
+Definition leaf_cond (c : cfg) (i : nat) (r : rec) (tl : list (nat * rec)) : bool :=
+  match r_type r, tl with
+  | ENTRY, (j, r') :: _ => c_fold c && Nat.eqb j i && (r_depth r' =? r_depth r) && is_exit r'
+  | _, _ => false
+  end.
+
+Lemma run_cons_step c tasks i r tl g : leaf_cond c i r tl = false ->
+  run c tasks ((i, r) :: tl) g =
+  let '(ls, g') := step c tasks g i r in
+  let '(out, g'') := run c tasks tl g' in (ls ++ out, g'').
+Proof.
+  intros Hf. cbn [run]. unfold step, warn_of. unfold leaf_cond in Hf.
+  destruct (r_type r).
+  - destruct tl as [|[j r'] tl']; [|rewrite Hf];
+      match goal with |- context [run c tasks ?l ?g] => destruct (run c tasks l g) as [out g''] end;
+      rewrite <- app_assoc; reflexivity.
+  - match goal with |- context [run c tasks ?l ?g] => destruct (run c tasks l g) as [out g''] end.
+    rewrite <- app_assoc. reflexivity.
+Qed.
+
+(* the folded branch: state and line *)
+Definition leaf_step (c : cfg) (tasks : list task) (g : gstate) (i : nat) (r r' : rec) : list line * gstate :=
+  let g1 := consume tasks g i r in
+  let ts0 := tget g1 i in
+  let warn := warn_of g1 ts0 r in
+  let g2 := mkg (g_tasks g1) (g_first g1) (if r_time r =? 0 then g_prev g1 else r_time r) in
+  let ts1 := stamp ts0 (r_time r) in
+  let ts2 := if is_fork c (r_addr r) then set_fork ts1 (t_dd ts1 + 1) else ts1 in
+  let g3 := consume tasks (tset g2 i ts2) i r' in
+  let ts3 := tget g3 i in
+  let f := fget (t_stack ts3) (t_sc ts2 - 1) in
+  (warn ++ [mk KLeaf i ts3 (g_first g3) (t_dd ts2) (r_addr r) (f_time f) (f_addr f)], g3).
+
+Lemma run_cons_leaf c tasks i r j r' tl' g : leaf_cond c i r ((j, r') :: tl') = true ->
+  run c tasks ((i, r) :: (j, r') :: tl') g =
+  let '(ls, g') := leaf_step c tasks g i r r' in
+  let '(out, g'') := run c tasks tl' g' in (ls ++ out, g'').
+Proof.
+  intros Hf. cbn [run]. unfold leaf_step, warn_of. unfold leaf_cond in Hf.
+  destruct (r_type r); [|discriminate]. rewrite Hf.
+  match goal with |- context [run c tasks ?l ?g] => destruct (run c tasks l g) as [out g''] end.
+  rewrite <- app_assoc. reflexivity.
+Qed.
+
+(* the folded line is the Open and the Close of the two unfolded steps *)
+Lemma leaf_core c forks tasks g i r r' : (i < length (g_tasks g))%nat -> c_forks c = forks ->
+  r_type r = ENTRY -> r_type r' = EXIT ->
+  let T := STR g in
+  let '(e1, ta) := cstep forks i (inh_of tasks T i) (nth i T tstate0) r in
+  let T1 := tupd T i ta in
+  let '(e2, tb) := cstep forks i (inh_of tasks T1 i) (nth i T1 tstate0) r' in
+  map core_of (events_of (fst (leaf_step c tasks g i r r'))) = e1 ++ e2 /\
+  STR (snd (leaf_step c tasks g i r r')) = tupd T1 i tb.
+Proof.
+  intros Hi Hfk Hty Hty'. cbn zeta. unfold leaf_step, cstep. rewrite Hty, Hty'.
+  rewrite (tget_consume _ _ _ _ Hi).
+  rewrite nth_STR, <- inherit_STR, <- strip_consume.
+  set (ts0 := consume_task (inherit tasks g i) (tget g i) r).
+  unfold is_fork, is_forkb. rewrite Hfk.
+  set (fk := existsb (N.eqb (r_addr r)) forks).
+  set (ts1 := stamp ts0 (r_time r)).
+  set (ts2 := if fk then set_fork ts1 (t_dd ts1 + 1) else ts1).
+  assert (Hlen : (i < length (STR g))%nat) by (rewrite length_STR; exact Hi).
+  rewrite nth_tupd by assumption. rewrite Nat.eqb_refl.
+  cbn [fst snd].
+  (* the state in which r' is consumed *)
+  set (g2 := tset (mkg (g_tasks (consume tasks g i r)) (g_first (consume tasks g i r))
+                       (if r_time r =? 0 then g_prev (consume tasks g i r) else r_time r)) i ts2).
+  assert (Hi2 : (i < length (g_tasks g2))%nat).
+  { unfold g2, tset, consume. cbn [g_tasks]. rewrite !length_tupd. exact Hi. }
+  rewrite (tget_consume _ _ _ _ Hi2).
+  assert (Hget2 : tget g2 i = ts2).
+  { unfold g2, tset, tget, consume. cbn [g_tasks]. rewrite nth_tupd by (rewrite length_tupd; exact Hi).
+    rewrite Nat.eqb_refl. reflexivity. }
+  rewrite Hget2.
+  assert (Hset2 : t_set ts2 = true).
+  { unfold ts2, ts1. destruct fk; cbn [set_fork stamp t_set]; apply consume_set. }
+  (* stripped view of ts2 and of the state after the unfolded first step *)
+  set (sa := if fk then set_fork (strip ts0) (t_dd (strip ts0) + 1) else strip ts0).
+  assert (Hsa : strip ts2 = sa) by (unfold ts2, ts1, sa; destruct fk; reflexivity).
+  assert (Hdd : t_dd sa = t_dd ts2) by (rewrite <- Hsa; reflexivity).
+  set (ta := set_dd sa (t_dd sa + 1)).
+  assert (Hseta : t_set ta = true).
+  { unfold ta. cbn [set_dd t_set]. rewrite <- Hsa. cbn [strip t_set]. exact Hset2. }
+  rewrite (consume_inh_irrelevant (inh_of tasks (tupd (STR g) i ta) i) (inherit tasks g2 i) ta r' Hseta).
+  rewrite (consume_inh_irrelevant (inherit tasks g2 i) 0 ts2 r' Hset2).
+  rewrite (consume_inh_irrelevant (inherit tasks g2 i) 0 ta r' Hseta).
+  (* consuming r' does not look at the display depth *)
+  assert (Hcons : forall x : tstate, t_set x = true ->
+            t_stack (consume_task 0 x r') = t_stack (consume_task 0 (set_dd x (t_dd x + 1)) r') /\
+            t_sc (consume_task 0 x r') = t_sc (consume_task 0 (set_dd x (t_dd x + 1)) r') /\
+            t_dd (consume_task 0 (set_dd x (t_dd x + 1)) r') = t_dd x + 1 /\
+            t_dd (consume_task 0 x r') = t_dd x /\
+            t_fork_dd (consume_task 0 x r') = t_fork_dd (consume_task 0 (set_dd x (t_dd x + 1)) r') /\
+            t_sc (consume_task 0 x r') = N.pred (t_sc x) /\
+            t_set (consume_task 0 (set_dd x (t_dd x + 1)) r') = true).
+  { intros [st sc dd fd stk t tl] Hst. cbn [t_set] in Hst. subst st.
+    unfold consume_task, count, account, first_setup, set_dd. rewrite Hty'.
+    cbn [t_set t_sc t_dd t_fork_dd t_stack t_ts t_ts_last].
+    destruct (sc =? 0); cbn [t_set t_sc t_dd t_fork_dd t_stack t_ts t_ts_last]; repeat split; reflexivity. }
+  destruct (Hcons sa) as (C1 & C2 & C3 & C4 & C5 & C6 & C7).
+  { rewrite <- Hsa. exact Hset2. }
+  fold ta in C1, C2, C3, C5, C7.
+  pose proof (strip_consume 0 ts2 r') as Hs3. rewrite Hsa in Hs3.
+  set (ts3 := consume_task 0 ts2 r') in *.
+  assert (Hstk3 : t_stack ts3 = t_stack (consume_task 0 sa r')) by (rewrite <- Hs3; reflexivity).
+  assert (Hsc3 : t_sc ts3 = t_sc (consume_task 0 sa r')) by (rewrite <- Hs3; reflexivity).
+  assert (Hsc2 : t_sc ts2 = t_sc sa) by (rewrite <- Hsa; reflexivity).
+  split.
+  - rewrite events_warn_app by apply warn_of_warn. unfold events_of_line, mk.
+    cbn [l_kind l_task l_indent l_name l_dur map core_of e_open e_task e_indent e_name e_dur app].
+    rewrite Hdd. f_equal. rewrite C3. replace (N.pred (t_dd sa + 1)) with (t_dd sa) by lia. rewrite Hdd.
+    rewrite Hstk3, C1. rewrite <- C2, <- Hsc3.
+    replace (t_sc ts2 - 1) with (t_sc ts3); [reflexivity|].
+    rewrite Hsc3, C6, <- Hsc2. lia.
+  - unfold STR at 1. unfold consume. cbn [g_tasks]. rewrite map_tupd. fold (STR g2).
+    assert (HS2 : STR g2 = tupd (STR g) i sa).
+    { unfold g2, STR, tset, consume. cbn [g_tasks]. rewrite tupd_tupd, map_tupd, Hsa. reflexivity. }
+    rewrite HS2, !tupd_tupd. f_equal.
+    rewrite Hget2, (consume_inh_irrelevant (inherit tasks g2 i) 0 ts2 r' Hset2). fold ts3. rewrite Hs3. rewrite C3. replace (N.pred (t_dd sa + 1)) with (t_dd sa) by lia.
+    (* both states agree field by field *)
+    destruct (consume_task 0 sa r') as [st3 sc3 dd3 fd3 stk3 t3 tl3] eqn:E3.
+    destruct (consume_task 0 ta r') as [st4 sc4 dd4 fd4 stk4 t4 tl4] eqn:E4.
+    cbn [t_stack t_sc t_dd t_fork_dd t_set set_dd] in *.
+    pose proof (consume_ts 0 sa r') as [T1 T2]. pose proof (consume_ts 0 ta r') as [T3 T4].
+    rewrite E3 in T1, T2. rewrite E4 in T3, T4. cbn [t_ts t_ts_last] in *.
+    pose proof (consume_set 0 sa r') as S3. rewrite E3 in S3. cbn [t_set] in S3.
+    assert (t_ts sa = t_ts ta /\ t_ts_last sa = t_ts_last ta) as [X1 X2] by (unfold ta; split; reflexivity).
+    unfold set_dd. cbn [t_set t_sc t_dd t_fork_dd t_stack t_ts t_ts_last]. f_equal; congruence.
+Qed.
+
+Lemma length_leaf_step c tasks g i r r' : length (g_tasks (snd (leaf_step c tasks g i r r'))) = length (g_tasks g).
+Proof. unfold leaf_step. cbn [snd]. unfold consume, tset. cbn [g_tasks]. rewrite !length_tupd. reflexivity. Qed.
+
+Lemma leaf_cond_true c i r tl : leaf_cond c i r tl = true ->
+  r_type r = ENTRY /\ exists r' tl', tl = (i, r') :: tl' /\ r_type r' = EXIT.
+Proof.
+  unfold leaf_cond. destruct (r_type r); [|discriminate].
+  destruct tl as [|[j r'] tl']; [discriminate|]. intros H.
+  apply andb_true_iff in H. destruct H as [H H4]. apply andb_true_iff in H. destruct H as [H H3].
+  apply andb_true_iff in H. destruct H as [H1 H2]. apply Nat.eqb_eq in H2. subst j.
+  split; [reflexivity|]. exists r', tl'. split; [reflexivity|].
+  unfold is_exit in H4. destruct (r_type r'); [discriminate|reflexivity].
+Qed.
+
+(* with or without folding, the core events are those of the unfolded run on stripped states *)
+Lemma run_core c forks tasks : c_forks c = forks -> forall n l g,
+  (length l <= n)%nat -> Forall (fun p => (fst p < length (g_tasks g))%nat) l ->
+  map core_of (events_of (fst (run c tasks l g))) = crun forks tasks l (STR g).
+Proof.
+  intros Hfk. induction n as [|n IH]; intros l g Hn Hb.
+  - destruct l; [reflexivity|cbn in Hn; lia].
+  - destruct l as [|[i r] tl]; [reflexivity|].
+    inversion Hb as [|? ? Hi Hb']; subst. cbn [fst] in Hi. cbn [length] in Hn.
+    destruct (leaf_cond c i r tl) eqn:Hlc.
+    + destruct (leaf_cond_true _ _ _ _ Hlc) as (Hty & r' & tl' & -> & Hty').
+      rewrite (run_cons_leaf _ _ _ _ _ _ _ _ Hlc).
+      pose proof (leaf_core c (c_forks c) tasks g i r r' Hi eq_refl Hty Hty') as HL. cbn zeta in HL.
+      cbn [crun].
+      destruct (cstep (c_forks c) i (inh_of tasks (STR g) i) (nth i (STR g) tstate0) r) as [e1 ta].
+      destruct (cstep (c_forks c) i (inh_of tasks (tupd (STR g) i ta) i) (nth i (tupd (STR g) i ta) tstate0) r') as [e2 tb].
+      destruct HL as [HL1 HL2].
+      pose proof (length_leaf_step c tasks g i r r') as Hlen.
+      destruct (leaf_step c tasks g i r r') as [ls g'] eqn:Els. cbn [fst snd] in *.
+      inversion Hb' as [|? ? _ Hb'']; subst.
+      specialize (IH tl' g'). destruct (run c tasks tl' g') as [out g''] eqn:Er. cbn [fst] in *.
+      rewrite events_of_app, map_app, HL1, IH, HL2, <- app_assoc; [reflexivity|cbn [length] in Hn; lia|].
+      rewrite Hlen. exact Hb''.
+    + rewrite (run_cons_step _ _ _ _ _ _ Hlc).
+      pose proof (step_core c (c_forks c) tasks g i r Hi eq_refl) as [HS1 HS2].
+      pose proof (length_step c tasks g i r) as Hlen.
+      cbn [crun].
+      destruct (cstep (c_forks c) i (inh_of tasks (STR g) i) (nth i (STR g) tstate0) r) as [e1 ta].
+      destruct (step c tasks g i r) as [ls g'] eqn:Es. cbn [fst snd] in *.
+      specialize (IH tl g'). destruct (run c tasks tl g') as [out g''] eqn:Er. cbn [fst] in *.
+      rewrite events_of_app, map_app, HS1, IH, HS2; [reflexivity|lia|].
+      rewrite Hlen. exact Hb'.
+Qed.
+
+(* C06: folding a leaf call into one line never changes the calls shown *)
+Theorem fold_is_presentation forks sel tasks :
+  map core_of (events_of (fst (replay_raw (mkcfg true forks) sel tasks))) =
+  map core_of (events_of (fst (replay_raw (mkcfg false forks) sel tasks))).
+Proof.
+  unfold replay_raw.
+  assert (Hb : Forall (fun p => (fst p < length (g_tasks (init_g sel tasks)))%nat) (merge (mask_queues sel tasks 0))).
+  { pose proof (merge_tags_valid (mask_queues sel tasks 0)) as H.
+    rewrite mask_queues_mask, length_mask, map_length in H. unfold init_g. cbn [g_tasks]. rewrite map_length.
+    rewrite mask_queues_mask. exact H. }
+  rewrite (run_core (mkcfg true forks) forks tasks eq_refl _ _ _ (le_n _) Hb).
+  rewrite (run_core (mkcfg false forks) forks tasks eq_refl _ _ _ (le_n _) Hb).
+  reflexivity.
+Qed.
